@@ -154,6 +154,10 @@ func (k Keeper) ValidateClaim(ctx sdk.Ctx, claim pc.MsgClaim) (err sdk.Error) {
 	if er != nil {
 		return sdk.ErrInternal(er.Error())
 	}
+	// ensure that a session starts at that height: the application's allowance is per session
+	if k.GetLatestSessionBlockHeight(sessionContext) != claim.SessionHeader.SessionBlockHeight {
+		return pc.NewInvalidBlockHeightError(pc.ModuleName)
+	}
 	// ensure that session ended
 	sessionEndHeight := claim.SessionHeader.SessionBlockHeight + k.BlocksPerSession(sessionContext) - 1
 	if ctx.BlockHeight() <= sessionEndHeight {
